@@ -51,6 +51,8 @@ CONTENTS = [
     ' "x"y,{d}',
     '  .{d}, z{d}',
     ' {d},{d}1,{d}2',
+    # blanks between an item and the separator that follows it
+    ' {d}3 ,"s{d}" ,{d}4  , "t{d}"  ',
 ]
 DATA_LINES = [10, 100, 200, 300]      # 10 is executed (before the script), the others follow END
 FILLERS = ['bare', 'between', 'decoy']
